@@ -199,9 +199,10 @@ def build_c03_replay():
     out = os.path.join(BUILD, 'replay', 'c03_replay')
     os.makedirs(os.path.dirname(out), exist_ok=True)
     srcs = ['nl-writer2/src/nl-writer2.cc', 'nl-writer2/src/nl-utils.cc', 'nl-writer2/src/dtoa.cc', 'src/nl-reader.cc',
-            'src/format.cc', 'src/os.cc', 'src/posix.cc', 'src/expr-info.cc']
-    cmd = ['g++', '-std=c++17', '-w', '-O0', '-I', repo + '/include', '-I', repo + '/nl-writer2/include',
-           os.path.join(VERIF, 'replay', 'c03_replay.cc')] + [os.path.join(repo, x) for x in srcs] + ['-o', out]
+            'src/format.cc', 'src/os.cc', 'src/posix.cc']
+    cmd = ['g++', '-std=c++17', '-w', '-O0', '-I', repo + '/include', '-I', repo + '/nl-writer2/include', '-I', repo + '/src',
+           os.path.join(VERIF, 'replay', 'c03_replay.cc')] + [os.path.join(repo, x) for x in srcs] + \
+          [os.path.join(extract.generated_dir(), 'expr-info.cc'), '-o', out]
     p = subprocess.run(cmd, capture_output=True, text=True)
     if p.returncode != 0:
         return None, 'replay driver build failed: ' + p.stderr[-1500:], ' '.join(cmd)
@@ -219,9 +220,10 @@ def replay_nput(lead, inputs, obs):
     out = os.path.join(BUILD, 'replay', 'c03_replay')
     os.makedirs(os.path.dirname(out), exist_ok=True)
     srcs = ['nl-writer2/src/nl-writer2.cc', 'nl-writer2/src/nl-utils.cc', 'nl-writer2/src/dtoa.cc', 'src/nl-reader.cc',
-            'src/format.cc', 'src/os.cc', 'src/posix.cc', 'src/expr-info.cc']
-    cmd = ['g++', '-std=c++17', '-w', '-O0', '-I', repo + '/include', '-I', repo + '/nl-writer2/include',
-           os.path.join(VERIF, 'replay', 'c03_replay.cc')] + [os.path.join(repo, x) for x in srcs] + ['-o', out]
+            'src/format.cc', 'src/os.cc', 'src/posix.cc']
+    cmd = ['g++', '-std=c++17', '-w', '-O0', '-I', repo + '/include', '-I', repo + '/nl-writer2/include', '-I', repo + '/src',
+           os.path.join(VERIF, 'replay', 'c03_replay.cc')] + [os.path.join(repo, x) for x in srcs] + \
+          [os.path.join(extract.generated_dir(), 'expr-info.cc'), '-o', out]
     p = subprocess.run(cmd, capture_output=True, text=True)
     if p.returncode != 0:
         return False, 'replay driver build failed: ' + p.stderr[-1500:], ' '.join(cmd)
